@@ -34,6 +34,12 @@ def analyse(ck, prog, pv, pvn, name, fieldname):
     if not ck.anchor("ROLE", "Ontology::" + name, b):
         return None
     res = {"filtered_const": None, "filter_vs": None, "polarity": None}
+    # the field is the one the public accessor of the same role (Ontology::modifier() / ::categories()) hands out
+    acc = prog.body(ONT + fieldname)
+    if acc is not None:
+        fl = sorted({a[2] for a in pv.of_return(acc) if a[0] == "field" and a[1].endswith("::Ontology")})
+        if len(fl) == 1:
+            fieldname = fl[0]
     assigns = [(pos, s) for pos, s in b.stmts() if s.k == "assign" and any(e != "*" and e[0] == "f" and e[1] == fieldname and e[2].endswith("Ontology") for e in s.place.fields())]
     if not assigns:
         ck.ob("ROLE", name + "/assign", False, "%s never assigns self.%s" % (name, fieldname), where=b.where())
@@ -169,7 +175,7 @@ def run(ck, prog, ctx):
         b = s["body"]
         owner = prog.bodies[b.root].short if b.kind == "Closure" and b.root in prog.bodies else b.short
         ck.ob("SIBLING", "membership/" + owner, s["inclusive"], "%s tests the %s roots against %s" % (owner, s["root"], " ∪ ".join(s["fields"])), where=b.where(s["term"].line))
-    ck.floor("SIBLING", "membership predicates on HpoTerm", len(sites), 2)
+    ck.floor("SIBLING", "membership predicates on HpoTerm", len(sites), 2, soft=bool(sites))
 
     # ---- accessors: a method named after a field returns that field, not a sibling of the same type
     ck.rule("GETTER", "an accessor `f()` / `f_mut()` of a struct with a field `f` (or its documented alias) derives its result from that field (DESIGN 3.9)")
